@@ -90,3 +90,9 @@ def main(tier: str, seed: int) -> int:
         require=["resets", "mid_edges", "last_edges", "post_terminal_edges", "lbf_truncations"],
     )
     return rep.finish()
+
+
+def replay(doc: Dict[str, Any]) -> int:
+    from mc.graphprops import replay as _r
+
+    return _r(PID, doc)
